@@ -22,6 +22,8 @@ func runC17(c *Ctx) {
 	c.assume("package regexp implements RE2 semantics; QuoteMeta output matches its argument literally")
 	// a pattern refused for its size never reaches the matcher at all
 	ruleValueRejections(c, "R17.f", "KEYS", "SCAN")
+	// the pattern that reaches the compiler is the pattern the client sent
+	ruleNoWriteThroughView(c, "R17.g")
 }
 
 // cleanPattern: v is built only from constants and QuoteMeta results.
